@@ -283,6 +283,9 @@ func connCase(va variant, k int) (impl string, dur time.Duration) {
 //
 //	c2 <topic hex> <A>:<ver>:0:0 <bodyA hex> <B>:<ver>:0:0 <bodyB hex> <k>\t<resA> <resB>
 func twoCallers(out *bufio.Writer, r *rand.Rand, thorough bool) (n, bad int) {
+	if badTotal >= badBudget {
+		return
+	}
 	pairs := [][2]string{{"listOffsets", "listOffsets"}, {"heartbeat", "offsetCommit"}, {"offsetFetch", "heartbeat"},
 		{"findCoordinator", "listGroups"}, {"listOffsets", "syncGroup"}, {"leaveGroup", "listOffsets"}}
 	for _, pr := range pairs {
@@ -338,7 +341,8 @@ func twoCallers(out *bufio.Writer, r *rand.Rand, thorough bool) (n, bad int) {
 					opB.Name, opB.Versions[0], gen.Hex(wb.B), k, resA, resB)
 				n++
 				if resA == "hang" || resB == "hang" {
-					if bad++; bad >= 5 {
+					bad++
+					if badTotal++; badTotal >= badBudget {
 						return
 					}
 				}
